@@ -11,6 +11,13 @@ CHECKS = {
              "x16 scaling is exact because the code's arithmetic is linear in sizes"]),
 }
 
+_CORE_ASSUME = ["TLC and the community modules are correct",
+                "the harness projection (frame table, payload-id table, file-byte parser) and the concretisation of abstract payloads are trusted",
+                "histories are crash-free except for `abandon` (handle lost between two calls)",
+                "small-scope hypothesis for the exhaustive part (<= 3 frames, <= 5..7 calls, 8-unit log)"]
+for _p in ("C01", "C06", "C07", "C08", "C15", "C19", "C24", "C25"):
+    CHECKS[_p] = ("eng_core", "model_checking", _CORE_ASSUME)
+
 
 def run(prop, tier, replay=None):
     modname, level, assumptions = CHECKS[prop]
